@@ -211,7 +211,7 @@ CLAIMED = {
              "and after accounts created through dirk; result multisets diffed with the model and judged sound/complete by the Lean "
              "specification (firstBearing + whole-name match); each entry's key cross-checked with the fetcher."
              " Populations include DISTRIBUTED wallets with imported accounts (participant endpoints of every spelling) and 40% of the scenarios are listed through the real gRPC ListAccounts handler; earlier listings are repeated after creations."
-             " Key generation with a wallet-store read fault: what is in a participant's wallet is listed. A wallet in a second store of the same type. Patterns differing only in the case of a class escape.",
+             " Key generation with a wallet-store read fault: what is in a participant's wallet is listed. A wallet in a second store of the same type. Patterns differing only in the case of a class escape. C18_kernel_is_source: ListAccounts (anchoring, per-path and per-account decisions) is translated from the source on every run and proved to be the model's listAccounts.",
         note="Over-listing inside accessible accounts of a requested wallet (the lister's un-grouped anchoring) is not flagged: C18 as stated allows it.",
         ref="DESIGN.md §6 C18"),
     "C19": dict(
